@@ -429,6 +429,7 @@ type pScript struct {
 	Renew   []string `json:"renew"`           // answers of successive Renew calls
 	At      int      `json:"at_ms,omitempty"` // when the external event happens
 	Event   string   `json:"event,omitempty"` // demote handoff-connected handoff-unconnected handoff-refused shutdown
+	Then    string   `json:"then,omitempty"`  // a second event 300 ms after the first: demote shutdown
 	Model   string   `json:"model"`           // the model's event list
 	WantEnd int      `json:"want_end_ms"`     // model: ms after the last successful renewal at which the role ends (0: not by renewal)
 }
@@ -496,6 +497,15 @@ func runPrimary(c *common.Ctx, cf *common.CaseFile, sc pScript, root string, idx
 		case "shutdown":
 			go s.Close()
 		}
+		if sc.Then != "" {
+			time.Sleep(300 * time.Millisecond)
+			switch sc.Then {
+			case "demote":
+				s.Demote()
+			case "shutdown":
+				go s.Close()
+			}
+		}
 	}
 	// watch the role
 	end := time.Time{}
@@ -516,16 +526,16 @@ func runPrimary(c *common.Ctx, cf *common.CaseFile, sc pScript, root string, idx
 	switch {
 	case end.IsZero():
 		exit = 0
-	case sc.Event == "demote":
+	case sc.Event == "demote" || sc.Then == "demote":
 		exit = 2
-	case sc.Event == "shutdown":
+	case sc.Event == "shutdown" || sc.Then == "shutdown":
 		exit = 4
 	case (sc.Event == "handoff-connected") && !closed:
 		exit = 3
 	default:
 		exit = 1
 	}
-	if sc.Event == "handoff-connected" && closed && !end.IsZero() {
+	if sc.Event == "handoff-connected" && sc.Then == "" && closed && !end.IsZero() {
 		exit = 1
 	}
 	mu.Lock()
@@ -701,6 +711,14 @@ func Run(c *common.Ctx) error {
 		{Name: "handoff-unconnected", At: 200, Event: "handoff-unconnected", Model: "PHandoff false true"},
 		{Name: "handoff-refused", At: 200, Event: "handoff-refused", Model: "PHandoff true false"},
 		{Name: "shutdown", At: 300, Event: "shutdown", Model: "PShutdown"},
+		// a handoff that does not go through leaves an ordinary primary: its lease is destroyed when the role ends
+		{Name: "handoff-refused-then-demote", At: 200, Event: "handoff-refused", Then: "demote", Model: "PHandoff true false; PDemote"},
+		{Name: "handoff-refused-then-shutdown", At: 200, Event: "handoff-refused", Then: "shutdown", Model: "PHandoff true false; PShutdown"},
+		{Name: "handoff-unconnected-then-demote", At: 200, Event: "handoff-unconnected", Then: "demote", Model: "PHandoff false true; PDemote"},
+		// the lease service accepts the handoff, but passing the lease on fails (the last renewal before sending it errors)
+		{Name: "handoff-not-completed-then-demote", Renew: []string{"err"}, At: 200, Event: "handoff-connected", Then: "demote", Model: "PHandoff false true; PDemote"},
+		{Name: "handoff-not-completed-then-shutdown", Renew: []string{"err"}, At: 200, Event: "handoff-connected", Then: "shutdown", Model: "PHandoff false true; PShutdown"},
+		{Name: "handoff-refused-then-expired", Renew: []string{"ok", "expired"}, At: 200, Event: "handoff-refused", Model: "PHandoff true false; PRenewOk; PRenewExpired", WantEnd: 1500},
 	}
 	var wg sync.WaitGroup
 	var mu sync.Mutex
